@@ -196,6 +196,13 @@ def run_history(env, kind, fam, events, scratch, viol, stats, mode):
         if hit:
             stats["with_hit"] += 1
             stats["nontrivial"].add("%s/%s/%d" % (kind, stats["hist_id"], step))
+        if mode == "C04" and e.get("input") is None and not e.get("extra") and got is not None and got.get("ok"):
+            # the reference above is the evaluator itself without a cache; whether a result is volatile is also known from
+            # the plain composition (downstream of a volatile command, whatever labels follow)
+            o2 = env.interp(q)
+            if o2 is not None and o2.ok and bool(o2.volatile) != bool(got.get("volatile")):
+                viol("volatility_differs_from_composition", "%s: step %d evaluate(%r): reported volatile=%r, downstream of a volatile command: %r" % (
+                    kind, step, q, got.get("volatile"), bool(o2.volatile)), step)
         if mode == "C04":
             for field, detail in E.compare_outcomes(ref, got, env, q):
                 viol(field, "%s: step %d evaluate(%r, input=%r, extra=%r)%s: %s" % (
@@ -243,16 +250,23 @@ def run_shard(spec, mode=None):
         if spec["rep"] == 0:
             # fixed short histories: a result labelled with a file name whose format is not its type's own, asked for twice
             for j, pq in enumerate(["mk-pairs-2/res.json", "mk-pairs-2/filename-w.json/ident", "mk-tuple-2/ident/t.json", "mk-list-1/push-~X~/mk-tuple-2~E/l.json",
-                                    "mk-df-2/frame.csv", "mk-dict-2/d.txt", "lit-abc/t.json", "mk-bytes-2/b.txt"]):
+                                    "mk-df-2/frame.csv", "mk-dict-2/d.txt", "lit-abc/t.json", "mk-bytes-2/b.txt",
+                                    "lit-a/vol/cat-b/v.txt", "one/vol/w.json", "one/nocache/add-2/n.txt",
+                                    # longer than any key width a back-end may assume; its last prefixes share 2000 characters
+                                    "lit-a/" + "/".join("cat-%s%02d" % ("x" * 150, jj) for jj in range(14))]):
                 stats["hist_id"] = "%s.fixed%d" % (spec["rep"], j)
-                fam = [pq] + E.prefixes_of(pq)[1:]
-                events = [{"ev": "eval", "q": pq}, {"ev": "eval", "q": pq}, {"ev": "eval", "q": E.prefixes_of(pq)[-1] if E.prefixes_of(pq) else pq},
+                pf = E.prefixes_of(pq)
+                fam = [pq] + pf[1:]
+                events = [{"ev": "eval", "q": pq}, {"ev": "eval", "q": pq}, {"ev": "eval", "q": pf[-1] if pf else pq},
                           {"ev": "eval", "q": pq}]
+                if len(pf) > 2:
+                    events += [{"ev": "eval", "q": pf[1]}, {"ev": "eval", "q": pf[2]}, {"ev": "eval", "q": pf[1] + "/cat-z"}, {"ev": "eval", "q": pq}]
                 run_history(env, kind, fam, events, scratch, make_viol(kind, fam, events), stats, mode)
-        for h in range(spec["n"]):
+        npinned = len(PINNED) if spec["rep"] == 0 else 0
+        for h in range(npinned + spec["n"]):
             stats["hist_id"] = "%s.%d" % (spec["rep"], h)
-            # the first histories of every configuration are about values JSON has no native form for
-            fam, events = gen_history(rnd, g, kind, pinned=PINNED[h] if (spec["rep"] == 0 and h < len(PINNED)) else None)
+            # the first histories of every configuration are built on fixed queries (values JSON has no native form for, ...)
+            fam, events = gen_history(rnd, g, kind, pinned=PINNED[h] if h < npinned else None)
             run_history(env, kind, fam, events, scratch, make_viol(kind, fam, events), stats, mode)
             if not samples and h == 1:
                 samples.append({"kind": kind, "family": fam[:6], "events": events[:8]})
